@@ -31,6 +31,18 @@ def text_cases(rng, tier):
                 j = rng.randrange(len(b))
                 b[i], b[j] = b[j], b[i]
             out.append("".join(b))
+    # forward references (use before definition): spellings with moved definitions, the same name referred to several times in a
+    # row before it is defined, and the same never defined at all
+    for _, t in trees:
+        out.append(schemadoc.render(schemadoc.spell(schemadoc.move_definitions(t, rng), rng), rng, 0))
+    fwd = ['{"type":"record","name":"T","fields":[{"name":"a","type":"B"},{"name":"b","type":"B"},{"name":"c","type":%s}]}',
+           '{"type":"record","name":"T","fields":[{"name":"a","type":["null","B"]},{"name":"b","type":{"type":"array","items":"B"}},{"name":"c","type":"B"},'
+           '{"name":"d","type":{"type":"map","values":"B"}},{"name":"e","type":%s}]}',
+           '{"type":"record","name":"ns.T","fields":[{"name":"a","type":"B"},{"name":"b","type":"ns.B"},{"name":"c","type":".ns.B"},{"name":"d","type":"C"},{"name":"e","type":"B"},'
+           '{"name":"f","type":%s},{"name":"g","type":{"type":"fixed","name":"C","size":2}}]}']
+    for f in fwd:
+        out.append(f % '{"type":"enum","name":"B","symbols":["S"]}')
+        out.append(f % '"int"')            # B never defined: an error, not a crash
     # every JSON value shape at the positions of a record schema
     shapes = ["null", "true", "1", "1.5", "-0", "1e400", '""', '"x"', "[]", "{}", '[[]]', '{"type":{}}', '{"type":[]}', '{"type":null}', '{"type":1}']
     for sh in shapes:
